@@ -103,6 +103,25 @@ impl<'a> Driver<'a> {
         self.absorb(s);
         self.total.subspace(name, n, false);
     }
+    /// hidden-state phase: every generated input is evaluated right after each of its one-character
+    /// neighbours on the same thread (the neighbours are ordinary cases of their own, not counted)
+    pub fn after_neighbours<S>(&mut self, name: &str, strat: &S, seed: u64, phase: &str, n: u64, to_bytes: impl Fn(&S::Value) -> Vec<u8> + Sync + Send)
+    where
+        S: proptest::strategy::Strategy + Sync,
+        S::Value: Clone,
+    {
+        let f = self.f;
+        let s = run_strategy(strat, seed, phase, n, |v, st| {
+            let b = to_bytes(v);
+            for nb in gen::neighbour_bytes(&b) {
+                f(&nb, st, Count::No);
+                f(&b, st, Count::No);
+            }
+            st.class("evaluated-after-a-neighbour");
+        });
+        self.absorb(s);
+        self.total.subspace(name, n, false);
+    }
     pub fn list(&mut self, name: &str, items: &[Vec<u8>]) {
         let f = self.f;
         let spaces = &self.spaces;
@@ -202,6 +221,7 @@ pub fn langid_space(cfg: &Cfg, tag: &str, f: &ByteCheck<'_>) -> Stats {
     d.list("G5 CLDR locale names, likelySubtags keys and values", &all);
     d.list("sanitisation slips: well-formed ids padded with whitespace / control characters / separators, or with a letter that case-folds to ASCII", &sanitisation_slips(SLIP_BASES_LANGID));
     d.list("every single-byte substitution (256 values x every position) of 10 well-formed language ids", &byte_substitutions(SLIP_BASES_LANGID));
+    d.after_neighbours("hidden state: G2 language ids, each evaluated right after every one-character neighbour (proptest)", &gen::s_langid_bytes(), cfg.seed, &format!("{tag}-nb"), n / 8, |b| b.clone());
     let nl = cfg.pick(20_000, 300_000);
     d.strategy("very long variant lists: 20-80 variants drawn from a 12-element pool, so repeats are certain (proptest)", &gen::s_langid_many_variants(), cfg.seed, &format!("{tag}-manyvar"), nl, |b| b.clone());
     d.total
@@ -246,6 +266,7 @@ pub fn locale_space(cfg: &Cfg, tag: &str, f: &ByteCheck<'_>) -> Stats {
     let bases: Vec<&str> = SLIP_BASES_LANGID.iter().chain(SLIP_BASES_LOCALE.iter()).cloned().collect();
     d.list("sanitisation slips: well-formed locales padded with whitespace / control characters / separators, or with a letter that case-folds to ASCII", &sanitisation_slips(&bases));
     d.list("every single-byte substitution (256 values x every position) of 16 well-formed ids / locales", &byte_substitutions(&bases));
+    d.after_neighbours("hidden state: G2 locales, each evaluated right after every one-character neighbour (proptest)", &gen::s_ast(), cfg.seed, &format!("{tag}-nb"), n / 8, |a| a.render());
     let nl = cfg.pick(10_000, 200_000);
     d.strategy("very long variant lists (20-80, repeats certain) followed by extensions (proptest)", &gen::s_langid_many_variants(), cfg.seed, &format!("{tag}-manyvar"), nl, |b| {
         let mut v = b.clone();
